@@ -18,12 +18,15 @@ def main():
     out = {}
     pd = os.path.join(LEAN, "SafeC", "Props")
     for f in sorted(os.listdir(pd)):
-        m = re.match(r"(C\d+)\.lean$", f)
+        m = re.match(r"(C\d+)([A-Za-z0-9_]*)\.lean$", f)
         if not m:
             continue
         pid = m.group(1)
+        modname = "SafeC.Props." + f[:-5]
         src = open(os.path.join(pd, f)).read()
-        items = []
+        ns = re.search(r"^namespace\s+([A-Za-z0-9_.]+)", src, re.M)
+        nsname = ns.group(1) if ns else modname
+        items = out.get(pid, [])
         for mm in re.finditer(r"^theorem\s+([A-Za-z0-9_'.]+)", src, re.M):
             name = mm.group(1)
             if src.count("/-", 0, mm.start()) > src.count("-/", 0, mm.start()):
@@ -35,8 +38,11 @@ def main():
                 if i >= 0 and "-/" not in head[i:-2]:
                     doc = head[i + 3:-2]
             kind = "partial" if name.endswith("_partial") else "witness" if name.endswith("_witness") else "full"
-            items.append(dict(name="SafeC.Props.%s.%s" % (pid, name), module="SafeC.Props.%s" % pid, kind=kind,
+            items.append(dict(name="%s.%s" % (nsname, name), module=modname, kind=kind,
                               covers=" ".join((doc or name).split())[:300]))
+        if f != pid + ".lean":
+            out[pid] = items
+            continue
         if pid == "C10":
             ro = open(os.path.join(LEAN, "SafeC", "Proofs", "QueryRO.lean")).read()
             for mm in re.finditer(r"^theorem\s+([A-Za-z0-9_']+_readonly[A-Za-z0-9_']*)", ro, re.M):
